@@ -232,7 +232,11 @@ func (c *Conn) Write(b []byte) (int, error) {
 		c.writers--
 		c.mu.Unlock()
 	}()
-	o := c.w.S.Arrive("write", "conn.Write", map[string]any{"c": c.id, "n": len(b), "armed": armed})
+	head := 0
+	if len(b) > 0 {
+		head = int(b[0])
+	}
+	o := c.w.S.Arrive("write", "conn.Write", map[string]any{"c": c.id, "n": len(b), "armed": armed, "head": head})
 	c.mu.Lock()
 	n, errs := 0, ""
 	var err error
